@@ -210,7 +210,7 @@ def run(ctx):
         if sig in pending:
             report(ctx, pending, sig, {})
             continue
-        small = shrink(exe, case, sig) if not case["name"].startswith("corpus:") and sig != "exec:refused-feasible-adaptation" else case
+        small = shrink(exe, case, sig) if not case["name"].startswith("corpus:") and sig != "exec:refused-feasible-adaptation" and not sig.startswith("exec:hang") else case
         r = run_harness(exe, small)
         report(ctx, pending, sig,
                {"kind": "implementation-trace-violates-the-property", "what": detail, "cases_with_this_signature": len(lst),
